@@ -295,14 +295,31 @@ var proxyprotoAuditedBounds = map[string]string{
 
 func init() {
 	register("C12", "R11", 8, "no crash from a hostile PROXY header: every computed slice bound in package proxyproto is either a merge of constants each guarded by a length check on its own edge, or one of the audited expressions (bounded by a preceding length test or by the index a search returned)", proxyprotoBounds)
+	register("C12", "R17", 1, "an unusual upstream reply cannot crash the logger: every computed slice bound in package httplog (its hooks run inside the connection goroutine, which nothing recovers) is kept inside the operand by a dominating length test or is an index found in the operand itself", func(r *R) { packageBounds(r, "httplog.") })
 	register("C08", "R8", 8, "a malformed PROXY header fails only its own connection: computed slice bounds in the header parser cannot run past the bytes read (same rule as C12.R11)", proxyprotoBounds)
 }
 
-func proxyprotoBounds(r *R) {
+func proxyprotoBounds(r *R) { packageBounds(r, "proxyproto.") }
+
+// packageBounds decides every slice expression with a bound that is not a literal-on-an-array in the functions of
+// one package (the code there runs on a goroutine nothing recovers: an out-of-range bound ends the process).
+func packageBounds(r *R, pkgPrefix string) {
+	nFuncs, nSlices := 0, 0
+	defer func() {
+		if nFuncs > 0 {
+			r.ok(pkgPrefix+"#slice-census", token.NoPos, fmt.Sprintf("%d functions of the package examined, %d slice expressions", nFuncs, nSlices))
+		}
+	}()
 	for _, fn := range r.modFuncs() {
-		if !strings.HasPrefix(strings.TrimLeft(fname(fn), "(*"), "proxyproto.") {
+		if !strings.HasPrefix(strings.TrimLeft(fname(fn), "(*"), pkgPrefix) {
 			continue
 		}
+		nFuncs++
+		eachInstr(fn, func(ins ssa.Instruction) {
+			if _, ok := ins.(*ssa.Slice); ok {
+				nSlices++
+			}
+		})
 		eachInstr(fn, func(ins ssa.Instruction) {
 			sl, ok := ins.(*ssa.Slice)
 			if !ok {
@@ -393,7 +410,7 @@ func proxyprotoBounds(r *R) {
 				r.ok(key, sl.Pos(), "audited: "+reason)
 				return
 			}
-			r.bad(key, sl.Pos(), "computed slice bound "+shown+" in the PROXY header parser is not among the audited ones: nothing shown here keeps it inside the operand, and a panic in the header-reading goroutine ends the process")
+			r.bad(key, sl.Pos(), "computed slice bound "+shown+" in this package is not among the audited ones: nothing shown here keeps it inside the operand, and a panic in the header-reading goroutine ends the process")
 		})
 	}
 }
